@@ -298,3 +298,19 @@ def canonical_order(self: 'Model', role: 'str') -> 'tuple':
     # inverted roles last; within each group the alphanumeric order
     ensures(len(result) == 2 and result[0] == inverted(self, role), label='inverted-last')
     ensures(result[1] == alnum_of(self, role), label='then-alphanumeric')
+
+
+# ---- Model(...) construction: the tables keep the order of the definitions (C11, C17) ----------------------
+# stated on the real constructor, executed natively (defaultdict / regex construction are outside the subset)
+
+@contract('penman.model:Model.__init__', bounded=True, why='defaultdict, re.compile of the role table')
+def model_init(self: 'Model', top_variable: 'str', top_role: 'str', concept_role: 'str', roles: 'val',
+               normalizations: 'val', reifications: 'val') -> 'none':
+    modifies(self)
+    # alternatives of one role / one concept are tried in the order in which they are defined: the tables
+    # list them in definition order (the same in every process)
+    ensures(all(self.reifications[r] == [(c, s, t) for r2, c, s, t in (reifications or []) if r2 == r]
+                for r in self.reifications), label='reifications-in-definition-order')
+    ensures(all(self.dereifications[c] == [(r, s, t) for r, c2, s, t in (reifications or []) if c2 == c]
+                for c in self.dereifications), label='dereifications-in-definition-order')
+    ensures(sorted(self.reifications) == sorted({r for r, c, s, t in (reifications or [])}), label='all-roles')
